@@ -252,6 +252,11 @@ func (mgr *GCMgr) gc(bkt *Bucket, startChunkID, endChunkID int, merge bool) {
 	for gc.Src = gc.Begin; gc.Src <= gc.End; gc.Src++ {
 		if gc.CancelFlag {
 			logger.Infof("GC canceled: src %d dst %d", gc.Src, gc.Dst)
+			if gc.Src == gc.Dst {
+				// the file to be rewritten in place has not been scanned yet:
+				// nothing was moved, so nothing may be cut off when the writer is closed
+				dstchunk.writingHead = dstchunk.size
+			}
 			return
 		}
 		if bkt.datas.chunks[gc.Src].size <= 0 {
